@@ -115,7 +115,7 @@ pub struct ReaderPlan {
     pub sizes: Vec<u32>,
     /// (stream offset, times): the first read starting at an offset >= `offset` first returns
     /// `Interrupted` `times` times. Sorted by offset.
-    pub eintr: Vec<(u64, u8)>,
+    pub eintr: Vec<(u64, u32)>,
     /// hard error: reads starting below `at` deliver at most up to `at`; the read at `at` fails.
     pub error: Option<(u64, ErrKind, bool)>, // (at, kind, sticky)
 }
@@ -149,7 +149,7 @@ pub struct SimReader<'a> {
     plan: &'a ReaderPlan,
     size_idx: usize,
     eintr_idx: usize,
-    eintr_left: u8,
+    eintr_left: u32,
     error_done: bool,
     pub stats: ReadStats,
     digest: Digest,
@@ -178,7 +178,7 @@ impl<'a> SimReader<'a> {
             digest: Digest::new(),
             track_mem: false,
             log: None,
-            call_cap: 4 * data.len() as u64 + 1024 + 4 * plan.eintr.len() as u64,
+            call_cap: 4 * data.len() as u64 + 1024 + 4 * plan.eintr.len() as u64 + plan.eintr.iter().map(|e| e.1 as u64).sum::<u64>(),
         }
     }
     pub fn track_mem(mut self) -> Self {
@@ -344,8 +344,21 @@ pub fn gen_reader_plan(r: &mut Rng, n: u64, boundaries: &[usize], hard: bool) ->
     };
     if r.chance(1, 2) {
         let k = 1 + r.usize_below(4);
-        // mostly 1..3 in a row, occasionally a long burst
-        let mut v: Vec<(u64, u8)> = (0..k).map(|_| (place(r), if r.chance(1, 10) { 4 + r.below(20) as u8 } else { 1 + r.below(3) as u8 })).collect();
+        // mostly 1..3 in a row, occasionally a long burst, rarely a storm of hundreds or thousands
+        // (a signal-heavy host; a retry loop with a bound gives up there)
+        let mut v: Vec<(u64, u32)> = (0..k)
+            .map(|_| {
+                (
+                    place(r),
+                    match r.below(40) {
+                        0..=3 => 4 + r.below(20) as u32,
+                        4 => 100 + r.below(400) as u32,
+                        5 => 1000 + r.below(9000) as u32,
+                        _ => 1 + r.below(3) as u32,
+                    },
+                )
+            })
+            .collect();
         v.sort();
         v.dedup_by_key(|e| e.0);
         p.eintr = v;
